@@ -130,6 +130,29 @@ EQUIVALENT = [
     ('tag-open-and-name-pushed-separately', ['C13'], [
         ('emmet/markup/format/html.py', "        out.push_string('<%s' % name)\n", "        out.push_string('<')\n        out.push_string(name)\n"),
     ]),
+    ('newline-and-base-indent-pushed-separately', ['C13', 'C08'], [
+        ('emmet/output_stream.py',
+         "        self.push('%s%s' % (newline, base_indent))\n        self.line += 1\n        self.column = len(base_indent)\n",
+         "        self.push(newline)\n        self.line += 1\n        self.column = 0\n        if base_indent:\n            self.push(base_indent)\n"),
+    ]),
+    ('expand-with-None-defaults', ['C08', 'C20'], [
+        ('emmet/__init__.py', "def expand(abbr: str, config: dict={}, global_config: dict={}) -> str:\n    \"Expands given abbreviation into code snippet\"\n",
+         "def expand(abbr: str, config: dict=None, global_config: dict=None) -> str:\n    \"Expands given abbreviation into code snippet\"\n    if config is None:\n        config = {}\n    if global_config is None:\n        global_config = {}\n"),
+    ]),
+    ('merged-data-with-dict-unpacking', ['C20', 'C08'], [
+        ('emmet/config.py',
+         "    result = {}\n    result.update(DEFAULT_CONFIG.get(key, empty))\n    if key in type_defaults: result.update(type_defaults[key])\n    if key in syntax_defaults: result.update(syntax_defaults[key])\n    if key in type_override: result.update(type_override[key])\n    if key in syntax_override: result.update(syntax_override[key])\n    result.update(user_config.get(key, empty))\n",
+         "    result = {**DEFAULT_CONFIG.get(key, empty), **type_defaults.get(key, empty), **syntax_defaults.get(key, empty),\n              **type_override.get(key, empty), **syntax_override.get(key, empty), **user_config.get(key, empty)}\n"),
+    ]),
+    ('markup-walk-with-explicit-stack', ['C08', 'C13'], [
+        ('emmet/markup/utils.py',
+         "    ancestors = [node]\n    def callback(ctx: AbbreviationNode):\n        fn(ctx, ancestors, state)\n        ancestors.append(ctx)\n        for child in ctx.children:\n            callback(child)\n        ancestors.pop()\n\n    for child in node.children:\n        callback(child)\n",
+         "    ancestors = [node]\n    stack = [(child, 1) for child in reversed(node.children)]\n    while stack:\n        ctx, depth = stack.pop()\n        del ancestors[depth:]\n        fn(ctx, ancestors, state)\n        ancestors.append(ctx)\n        for child in reversed(ctx.children):\n            stack.append((child, depth + 1))\n"),
+    ]),
+    ('score-memoised-in-a-bounded-lru-cache', ['C08'], [
+        ('emmet/stylesheet/score.py', "def calculate_score(str1: str, str2: str, partial_match=False):\n",
+         "import functools\n\n\n@functools.lru_cache(maxsize=512)\ndef calculate_score(str1: str, str2: str, partial_match=False):\n"),
+    ]),
     ('merged-data-as-a-loop-in-the-same-order', ['C20', 'C08'], [
         ('emmet/config.py',
          "    if key in type_defaults: result.update(type_defaults[key])\n    if key in syntax_defaults: result.update(syntax_defaults[key])\n    if key in type_override: result.update(type_override[key])\n    if key in syntax_override: result.update(syntax_override[key])\n",
